@@ -3,7 +3,6 @@ package p_base
 import (
 	"fmt"
 	"sort"
-	"strings"
 	"testing"
 	"time"
 
@@ -59,14 +58,14 @@ func c01Req(n uint64, t10 int) uint64 {
 	return req
 }
 
-func c01NoPanic(t ev.TB, r *ev.Rec, what string, f func()) {
+func c01NoPanic(t ev.TB, r *ev.Rec, api string, what func() string, f func()) {
 	defer func() {
 		if x := recover(); x != nil {
 			if r.Failed() {
 				panic(x)
 			}
 
-			r.Violation(t, "panic", "%s panicked: %v", what, x)
+			r.Violation(t, "panic", "%s %s panicked: %v", api, what(), x)
 		}
 	}()
 
@@ -158,7 +157,7 @@ func c01Judge(t ev.TB, r *ev.Rec, n uint64, t10 int, th base.Threshold, counts [
 	}
 
 	// A. FindMajority with the exact required count
-	c01NoPanic(t, r, "FindMajority "+desc(), func() {
+	c01NoPanic(t, r, "FindMajority", desc, func() {
 		set := append([]uint(nil), counts...)
 		idx := base.FindMajority(uint(n), uint(req), set...)
 		got := c01ResultOfIndex(idx)
@@ -197,7 +196,7 @@ func c01Judge(t ev.TB, r *ev.Rec, n uint64, t10 int, th base.Threshold, counts [
 	}
 
 	// B. FindVoteResult with the exact required count
-	c01NoPanic(t, r, "FindVoteResult "+desc(), func() {
+	c01NoPanic(t, r, "FindVoteResult", desc, func() {
 		res, key := base.FindVoteResult(uint(n), uint(req), votes)
 		if !checkKey("FindVoteResult", res, key) {
 			r.Violation(t, c01Sig(want, string(res), n, sum, top), "FindVoteResult(%d, %d, votes) = %s %q, model says %s; %s", n, req, res, key, want, desc())
@@ -218,7 +217,7 @@ func c01Judge(t ev.TB, r *ev.Rec, n uint64, t10 int, th base.Threshold, counts [
 	})
 
 	// C. Threshold.VoteResult (derives the required count itself)
-	c01NoPanic(t, r, "Threshold.VoteResult "+desc(), func() {
+	c01NoPanic(t, r, "Threshold.VoteResult", desc, func() {
 		res, key := th.VoteResult(uint(n), votes)
 		if !checkKey("Threshold.VoteResult", res, key) {
 			sig := c01Sig(want, string(res), n, sum, top)
@@ -396,7 +395,7 @@ func TestC01(t *testing.T) {
 	r := ev.Start(t, "C01")
 	defer r.Finish()
 
-	exN := r.N(10, 18)
+	exN := r.N(12, 32)
 	const exParts, exOver = 5, 3
 
 	r.Rule(fmt.Sprintf("A (exhaustive): every quorum n=1..%d x every threshold 51.0..100.0 step 0.1 x every vote multiset over <=%d facts with 0..n+%d votes; "+
@@ -438,24 +437,9 @@ func TestC01(t *testing.T) {
 				votes := c01Votes(asc, uint64(idx))
 
 				for t10 := c02MinT10; t10 <= c02MaxT10; t10++ {
-					// non-increasing order for FindMajority on even thresholds, non-decreasing on odd ones; the string form
-					// (keys follow the ascending vector) is shared
-					order := asc
-					if t10%2 == 0 {
-						order = desc
-					}
-
-					var want string
-					var nw int
-					var sum, top, missing uint64
-
-					if t10%2 == 0 {
-						// keys in votes are indexed by asc: judge the string APIs with asc, FindMajority with desc
-						want, nw, sum, top, missing = c01Judge(t, r, n, t10, ths[t10], asc, votes, st)
-						c01Judge(t, r, n, t10, ths[t10], order, nil, nil)
-					} else {
-						want, nw, sum, top, missing = c01Judge(t, r, n, t10, ths[t10], asc, votes, st)
-					}
+					// all three entry points on the non-decreasing vector, FindMajority again on the non-increasing one
+					want, nw, sum, top, missing := c01Judge(t, r, n, t10, ths[t10], asc, votes, st)
+					c01Judge(t, r, n, t10, ths[t10], desc, nil, nil)
 
 					evals++
 					classes["want:"+want]++
@@ -493,7 +477,7 @@ func TestC01(t *testing.T) {
 	}
 
 	// ---- B. random larger quorums
-	r.Checks(15000, 2000000)
+	r.Checks(40000, 6000000)
 	r.ShrinkTime(20 * time.Second)
 	rapid.Check(t, func(rt *rapid.T) {
 		g := c01GenCase().Draw(rt, "case")
@@ -540,5 +524,4 @@ func TestC01(t *testing.T) {
 	})
 
 	r.Extra("two_reach_required_key_unstable", st.ambiguousNondet)
-	_ = strings.Join
 }
